@@ -63,7 +63,8 @@ void ConfigWriter::EmitScope(std::ostream& fp, int indentLevel, const Dictionary
 		for (const Value& import : imports) {
 			fp << "\n";
 			EmitIndent(fp, indentLevel);
-			fp << "import \"" << import << "\"";
+			fp << "import ";
+			EmitString(fp, import);
 		}
 
 		fp << "\n";
